@@ -419,6 +419,76 @@ pub fn line_field_edit(prop: &'static str) -> Space {
     )
 }
 
+/// LINE-FIELD-SHORT: each of the 7 comma-separated fields (and the checksum digits) of a valid
+/// template replaced by EVERY string of length <= L over Σ₀, checksum recomputed (except when the
+/// checksum field itself is the target) — arbitrary short contents in every field position.
+pub fn line_field_short(prop: &'static str, maxlen: u32) -> Space {
+    let a = SIGMA0.len() as u64;
+    let mut starts = Vec::new();
+    let mut per = 0u64;
+    for len in 0..=maxlen {
+        starts.push(per);
+        per += a.pow(len);
+    }
+    Space::new(
+        &format!("LINE-FIELD-SHORT({})", maxlen),
+        &format!("8 field slots (address, count, number, id, channel, payload, fill, checksum digits) x every string of length 0..={} over the 12 structural symbols x 2 templates x decode", maxlen),
+        per * 8 * 2 * 2,
+        move |i, l| {
+            let mut r = Radix(i);
+            let decode = r.take(2) == 1;
+            let tmpl = r.take(2);
+            let slot = r.take(8);
+            let k = r.0;
+            let li = match starts.binary_search(&k) {
+                Ok(x) => x,
+                Err(x) => x - 1,
+            };
+            let mut rr = Radix(k - starts[li]);
+            let content: Vec<u8> = (0..li).map(|_| SIGMA0[rr.take(a) as usize]).collect();
+            let mut payload = vec![b'0'; 28];
+            payload[0] = b'1';
+            let mut m = if tmpl == 0 { Mk::new(1, 1, b"", &payload, 0) } else { Mk::new(2, 1, b"7", &payload[..13], 0) };
+            let line = match slot {
+                0 => {
+                    m.addr = content;
+                    m.render()
+                }
+                1 => {
+                    m.n = content;
+                    m.render()
+                }
+                2 => {
+                    m.k = content;
+                    m.render()
+                }
+                3 => {
+                    m.id = content;
+                    m.render()
+                }
+                4 => {
+                    m.chan = content;
+                    m.render()
+                }
+                5 => {
+                    m.payload = content;
+                    m.render()
+                }
+                6 => {
+                    m.fill = content;
+                    m.render()
+                }
+                _ => {
+                    let mut t = vec![b'*'];
+                    t.extend_from_slice(&content);
+                    m.render_with(&t)
+                }
+            };
+            judge_line(l, &line, decode, prop);
+        },
+    )
+}
+
 pub const STRUCT16: [u8; 16] = [b'!', b'$', b'\\', b',', b'*', b'0', b'1', b'6', b'9', b'A', b'G', b'w', b'x', b'\r', 0x00, 0xff];
 
 /// LINE-MUT2: every pair of positions × 16² structural bytes on a few seeds.
@@ -676,7 +746,6 @@ pub fn line_type_decodable(prop: &'static str) -> Space {
 /// history F(3,1) F(3,2) F(3,3) (and F(2,1) F(2,2)) with the byte as first payload character of
 /// fragment 2 and 3, on one parser; the sentence-level type of each result is judged.
 pub fn line_typechar_group(prop: &'static str) -> Space {
-    let _ = prop;
     Space::new(
         "TYPECHAR-GROUP",
         "all 256 first payload bytes x {3-fragment group, 2-fragment group} x 2 sequence ids x decode: type reported on the continuation (Incomplete) and on the completing (Complete) sentence",
@@ -711,8 +780,8 @@ pub fn line_typechar_group(prop: &'static str) -> Space {
                     return;
                 }
                 // with decoding on, the completing sentence may legitimately fail to decode
-                if !(decode && k == n) || out.is_ok() {
-                    judge_c19(l, &line, decode && false, &exp, &out, k == n);
+                if prop == "C19" && (!(decode && k == n) || out.is_ok()) {
+                    judge_c19(l, &line, false, &exp, &out, k == n);
                 }
                 if !out.is_ok() {
                     break;
@@ -723,7 +792,13 @@ pub fn line_typechar_group(prop: &'static str) -> Space {
 }
 
 pub fn c02(tier: Tier) -> Vec<Space> {
-    let mut v = vec![line_cksum("C02"), line_mut1("C02"), line_field_edit("C02"), line_seeds("C02")];
+    let mut v = vec![
+        line_cksum("C02"),
+        line_mut1("C02"),
+        line_field_edit("C02"),
+        line_seeds("C02"),
+        line_field_short("C02", if tier == Tier::Quick { 3 } else { 4 }),
+    ];
     if tier == Tier::Thorough {
         v.push(line_mut2("C02", 10));
     }
@@ -734,6 +809,7 @@ pub fn c07(tier: Tier) -> Vec<Space> {
     vec![
         line_seeds("C07"),
         line_grammar("C07", tier == Tier::Thorough),
+        line_field_short("C07", if tier == Tier::Quick { 3 } else { 4 }),
         line_addr("C07", tier == Tier::Thorough),
         line_mut1("C07"),
         line_typechar("C07"),
@@ -747,6 +823,7 @@ pub fn c08(tier: Tier) -> Vec<Space> {
         line_field_edit("C08"),
         line_grammar("C08", tier == Tier::Thorough),
         line_short("C08", if tier == Tier::Quick { 5 } else { 7 }),
+        line_field_short("C08", if tier == Tier::Quick { 3 } else { 4 }),
         line_cksum("C08"),
     ];
     if tier == Tier::Thorough {
